@@ -272,10 +272,13 @@ def observe_final(matcher, cands):
         hm = "t" if matcher.has_match() else "f"
     except Exception as e:  # noqa
         hm = "err-" + err_class(e)
-    mv = matcher.matching_variant
     idx = None
-    if mv is not None:
-        idx = next((i for i, c in enumerate(cands) if c is mv), -1)
+    try:
+        mv = matcher.matching_variant
+        if mv is not None:
+            idx = next((i for i, c in enumerate(cands) if c is mv), -1)
+    except Exception as e:  # noqa
+        idx = "exc:" + type(e).__name__
     cache = None
     try:
         cache = []
@@ -294,16 +297,70 @@ def observe_final(matcher, cands):
     return {"pending": pending, "has_match": hm, "match": idx, "cache": cache, "recent": recent}
 
 
-def run_script(cfg, cands, script, ecu=None):
+# How the caller hands the ECU's answer to `evaluate()`. The property speaks about *the ECU's responses* (byte strings = values):
+# which container the transport layer keeps them in, and what the caller does with that container once `evaluate()` has returned,
+# is the caller's business. Two independent features, all combinations:
+#   container : an immutable `bytes` object | a new `bytearray` per response | ONE `bytearray` for the whole life of the matcher
+#               that every response is received into (`rx[:] = ...`, as with `socket.recv_into`)
+#   afterwards: left alone | overwritten ("scribbled") with another response of the alphabet as soon as `evaluate()` has returned,
+#               i.e. before the loop is resumed (a transport layer that recycles / clears its receive buffer)
+BUF_MODES = ["bytes", "ba-fresh", "ba-reuse", "ba-fresh-scribble", "ba-reuse-scribble"]
+
+
+class RxBuffer:
+    """the caller's side of `evaluate()` for one matcher (all its request_loop runs)"""
+
+    def __init__(self, mode, pool):
+        if mode not in BUF_MODES:
+            raise ValueError(mode)
+        self.mode = mode
+        self.pool = [bytes.fromhex(h) for h in pool]
+        self.rx = bytearray()
+        self.k = 0
+
+    def noise(self, resp):
+        """a byte string that differs from `resp`: another response of the alphabet if there is one"""
+        others = [p for p in self.pool if p != resp]
+        self.k += 1
+        if others:
+            return others[self.k % len(others)]
+        return bytes(reversed(resp)) + b"\xff"
+
+    def deliver(self, matcher, resp):
+        resp = bytes(resp)
+        if self.mode == "bytes":
+            matcher.evaluate(resp)
+            return
+        if "reuse" in self.mode:
+            self.rx[:] = resp
+            buf = self.rx
+        else:
+            buf = bytearray(resp)
+        matcher.evaluate(buf)
+        if "scribble" in self.mode:
+            buf[:] = self.noise(resp)
+
+
+def run_script(cfg, cands, script, ecu=None, buf="bytes"):
     """script: list of sessions; a session is a list of inputs, one per yield: hex string = evaluate(bytes), None = no
     evaluate call; running out of inputs abandons the generator. With `ecu` (dict) a session "ecu" answers every request
-    from the table. Returns Obs."""
+    from the table. `buf`: how the answers are handed over (BUF_MODES). Returns Obs."""
     from odxtools.variantmatcher import VariantMatcher
     obs = Obs()
     old = odxexc.strict_mode
     odxexc.strict_mode = bool(cfg["strict"])
+    pool = set((ecu or {}).values())
+    for sess in script:
+        if sess != "ecu":
+            pool.update(x for x in sess if x is not None)
+    rx = RxBuffer(buf, sorted(pool))
     try:
-        matcher = VariantMatcher(variant_candidates=cands, use_cache=bool(cfg["cache"]))
+        try:
+            matcher = VariantMatcher(variant_candidates=cands, use_cache=bool(cfg["cache"]))
+        except Exception as e:  # noqa  (the constructor of a changed implementation: a failure is data, not a crash of the harness)
+            obs.sessions = [{"trace": [], "outcome": "err-" + err_class(e)} for _ in script]
+            obs.final = {"pending": "exc:ctor", "has_match": "err-" + err_class(e), "match": None, "cache": "exc:ctor", "recent": "exc:ctor"}
+            return obs
         for sess in script:
             trace, outcome = [], None
             try:
@@ -318,14 +375,14 @@ def run_script(cfg, cands, script, ecu=None):
                     phys, req = y
                     trace.append([bool(phys), bytes(req).hex()])
                     if sess == "ecu":
-                        matcher.evaluate(bytes.fromhex(ecu[ecu_key(phys, req)]))
+                        rx.deliver(matcher, bytes.fromhex(ecu[ecu_key(phys, req)]))
                     else:
                         if k >= len(sess):
                             gen.close()
                             outcome = "abandoned"
                             break
                         if sess[k] is not None:
-                            matcher.evaluate(bytes.fromhex(sess[k]))
+                            rx.deliver(matcher, bytes.fromhex(sess[k]))
                         k += 1
                     if len(trace) > 10000:
                         outcome = "runaway"
@@ -507,7 +564,11 @@ def sx_outcome(o):
     return "(decerr)"
 
 
-def sx_cfg(cfg, alphabet=None):
+def sx_cfg(cfg, alphabet=None, memo=None):
+    """`memo` (a dict owned by the caller, one per (candidate list, alphabet)): the text of the candidate list is built once"""
+    head = f"(strict {'t' if cfg['strict'] else 'f'}) (cache {'t' if cfg['cache'] else 'f'}) "
+    if memo is not None and "cands" in memo:
+        return head + memo["cands"]
     if alphabet is None:
         alphabet = resp_alphabet(cfg)
     vs = []
@@ -532,7 +593,10 @@ def sx_cfg(cfg, alphabet=None):
                 ps.append(f"(mp {hx(p['exp'])} {hx(p['svc'])} {snref} {path} {phys})")
             pats.append("(pat " + " ".join(ps) + ")")
         vs.append(f"(var {v['kind']} (pats {' '.join(pats)}) (svcs {' '.join(svcs)}))")
-    return f"(strict {'t' if cfg['strict'] else 'f'}) (cache {'t' if cfg['cache'] else 'f'}) (cands {' '.join(vs)})"
+    body = f"(cands {' '.join(vs)})"
+    if memo is not None:
+        memo["cands"] = body
+    return head + body
 
 
 def sx_ecu(ecu):
@@ -591,15 +655,24 @@ def xml_layer(L, kind, services, patterns):
             f'<DATA-OBJECT-PROP ID="{L}.bf2"><SHORT-NAME>bf2</SHORT-NAME>{IDENT}{_dct("A_BYTEFIELD", 16)}<PHYSICAL-TYPE BASE-DATA-TYPE="A_BYTEFIELD"/></DATA-OBJECT-PROP>'
             # fixed-length ASCII identification texts (blank padded by the ECU)
             f'<DATA-OBJECT-PROP ID="{L}.a4"><SHORT-NAME>a4</SHORT-NAME>{IDENT}{_dct("A_ASCIISTRING", 32)}<PHYSICAL-TYPE BASE-DATA-TYPE="A_UNICODE2STRING"/></DATA-OBJECT-PROP>'
-            f'<DATA-OBJECT-PROP ID="{L}.a2"><SHORT-NAME>a2</SHORT-NAME>{IDENT}{_dct("A_ASCIISTRING", 16)}<PHYSICAL-TYPE BASE-DATA-TYPE="A_UNICODE2STRING"/></DATA-OBJECT-PROP>')
+            f'<DATA-OBJECT-PROP ID="{L}.a2"><SHORT-NAME>a2</SHORT-NAME>{IDENT}{_dct("A_ASCIISTRING", 16)}<PHYSICAL-TYPE BASE-DATA-TYPE="A_UNICODE2STRING"/></DATA-OBJECT-PROP>'
+            # floating point identification values: IEEE doubles and singles as sent, and an integer scaled to a float (phys = (1 + x) / 2)
+            f'<DATA-OBJECT-PROP ID="{L}.f64"><SHORT-NAME>f64</SHORT-NAME>{IDENT}{_dct("A_FLOAT64", 64)}<PHYSICAL-TYPE BASE-DATA-TYPE="A_FLOAT64"/></DATA-OBJECT-PROP>'
+            f'<DATA-OBJECT-PROP ID="{L}.f32"><SHORT-NAME>f32</SHORT-NAME>{IDENT}{_dct("A_FLOAT32", 32)}<PHYSICAL-TYPE BASE-DATA-TYPE="A_FLOAT32"/></DATA-OBJECT-PROP>'
+            f'<DATA-OBJECT-PROP ID="{L}.lin"><SHORT-NAME>lin</SHORT-NAME><COMPU-METHOD><CATEGORY>LINEAR</CATEGORY><COMPU-INTERNAL-TO-PHYS><COMPU-SCALES>'
+            f'<COMPU-SCALE><COMPU-RATIONAL-COEFFS><COMPU-NUMERATOR><V>1</V><V>1</V></COMPU-NUMERATOR><COMPU-DENOMINATOR><V>2</V></COMPU-DENOMINATOR>'
+            f'</COMPU-RATIONAL-COEFFS></COMPU-SCALE></COMPU-SCALES></COMPU-INTERNAL-TO-PHYS></COMPU-METHOD>{_dct("A_UINT32", 32)}'
+            f'<PHYSICAL-TYPE BASE-DATA-TYPE="A_FLOAT64"/></DATA-OBJECT-PROP>')
     dtcdop = (f'<DTC-DOP ID="{L}.dtc"><SHORT-NAME>dtcdop</SHORT-NAME>{_dct("A_UINT32", 24)}<PHYSICAL-TYPE BASE-DATA-TYPE="A_UINT32"/>{IDENT}'
               f'<DTCS><DTC ID="{L}.dtc.k"><SHORT-NAME>known</SHORT-NAME><TROUBLE-CODE>291</TROUBLE-CODE><TEXT>x</TEXT></DTC></DTCS></DTC-DOP>')
     structs = (f'<STRUCTURE ID="{L}.Info"><SHORT-NAME>Info</SHORT-NAME><PARAMS>{_value("type", L + ".u8")}{_value("code", L + ".bf2")}</PARAMS></STRUCTURE>'
                f'<STRUCTURE ID="{L}.Item"><SHORT-NAME>Item</SHORT-NAME><PARAMS>{_value("type", L + ".u8")}</PARAMS></STRUCTURE>'
                f'<STRUCTURE ID="{L}.Sw"><SHORT-NAME>Sw</SHORT-NAME><PARAMS>{_value("ver", L + ".a2")}</PARAMS></STRUCTURE>'
-               f'<STRUCTURE ID="{L}.Tag"><SHORT-NAME>Tag</SHORT-NAME><PARAMS>{_value("t", L + ".a2")}</PARAMS></STRUCTURE>')
+               f'<STRUCTURE ID="{L}.Tag"><SHORT-NAME>Tag</SHORT-NAME><PARAMS>{_value("t", L + ".a2")}</PARAMS></STRUCTURE>'
+               f'<STRUCTURE ID="{L}.Cal"><SHORT-NAME>Cal</SHORT-NAME><PARAMS>{_value("stamp", L + ".f64")}</PARAMS></STRUCTURE>')
     eopf = (f'<END-OF-PDU-FIELD ID="{L}.Items"><SHORT-NAME>Items</SHORT-NAME><BASIC-STRUCTURE-REF ID-REF="{L}.Item"/></END-OF-PDU-FIELD>'
-            f'<END-OF-PDU-FIELD ID="{L}.Tags"><SHORT-NAME>Tags</SHORT-NAME><BASIC-STRUCTURE-REF ID-REF="{L}.Tag"/></END-OF-PDU-FIELD>')
+            f'<END-OF-PDU-FIELD ID="{L}.Tags"><SHORT-NAME>Tags</SHORT-NAME><BASIC-STRUCTURE-REF ID-REF="{L}.Tag"/></END-OF-PDU-FIELD>'
+            f'<END-OF-PDU-FIELD ID="{L}.Cals"><SHORT-NAME>Cals</SHORT-NAME><BASIC-STRUCTURE-REF ID-REF="{L}.Cal"/></END-OF-PDU-FIELD>')
     ddds = (f'<DIAG-DATA-DICTIONARY-SPEC><DTC-DOPS>{dtcdop}</DTC-DOPS><DATA-OBJECT-PROPS>{dops}</DATA-OBJECT-PROPS>'
             f'<STRUCTURES>{structs}</STRUCTURES><END-OF-PDU-FIELDS>{eopf}</END-OF-PDU-FIELDS></DIAG-DATA-DICTIONARY-SPEC>')
     comms = reqs = poss = negs = ""
@@ -608,7 +681,10 @@ def xml_layer(L, kind, services, patterns):
                   f'<POS-RESPONSE-REFS><POS-RESPONSE-REF ID-REF="{L}.{sn}.pr"/></POS-RESPONSE-REFS>'
                   f'<NEG-RESPONSE-REFS><NEG-RESPONSE-REF ID-REF="{L}.{sn}.nr"/></NEG-RESPONSE-REFS></DIAG-SERVICE>')
         reqs += f'<REQUEST ID="{L}.{sn}.rq"><SHORT-NAME>{sn}_rq</SHORT-NAME><PARAMS>{_const("sid", 0x22)}{_const("did", did)}</PARAMS></REQUEST>'
-        if did >= 3:      # text identification: name (4 characters), sw.ver (2 characters), tags[].t (2 characters each)
+        if did >= 4:      # floating point identification: stamp (double), ratio (single), scaled (uint32 -> (1 + x) / 2), cal.stamp, cals[].stamp
+            body = (f'{_value("stamp", L + ".f64")}{_value("ratio", L + ".f32")}{_value("scaled", L + ".lin")}{_value("cal", L + ".Cal")}'
+                    f'{_value("cals", L + ".Cals")}')
+        elif did == 3:      # text identification: name (4 characters), sw.ver (2 characters), tags[].t (2 characters each)
             body = f'{_value("name", L + ".a4")}{_value("sw", L + ".Sw")}{_value("tags", L + ".Tags")}'
         else:
             body = f'{_value("id", L + ".u8")}{_value("info", L + ".Info")}{_value("dtc", L + ".dtc")}{_value("items", L + ".Items")}'
